@@ -49,7 +49,7 @@ T.update({
  "C10":("exhaustive enumeration: every category / group / multi-character escape x all 1,112,064 scalar values, every block escape x its neighbourhood (quick) or all scalar values (thorough), against R3","4 C10",
         "bulk membership via replace_all plus anchored is_match at every set boundary; unknown names must be rejected; block.rs must equal the generator's output",
         "trusted base: ICU4X 1.5 property data accessed through a different API path, Blocks.txt as shipped"),
- "C11":("differential vs R1/R2 with the case-blind rule + metamorphic case swaps of input and pattern + monotonicity; alphabets validated at start-up","4 C11",
+ "C11":("differential vs R1/R2 with the case-blind rule + metamorphic case swaps of input and pattern + monotonicity; alphabets validated at start-up; bounded-exhaustive small scope + seeded random ASTs with shrinking","4 C11",
         "flag i on literals, class chars, ranges and back-references over ASCII, Latin-1, Greek, Cyrillic and Deseret letters with one-to-one case mappings",
         "characters with more than one case counterpart are outside the alphabets; swap relations not applied when the pattern contains a case-sensitive escape such as \\p{Lu}"),
  "C13":("differential vs literal substring search / split / replace; random metacharacter-heavy literals","4 C13",
